@@ -397,6 +397,17 @@ void run_case(Chooser& c) {
     }
     dsched::describe("]");
   }
+  // discard-heavy cases (drawn last, so every earlier choice keeps its meaning): most entries are given up by their
+  // threads, so several threads are inside AsyncFileAppender::discard() around the same time
+  if (c.below(4) == 1) {
+    nwritten = ndiscarded = 0;
+    for (auto& e : w.entries) {
+      if (e.id % 4 != 3) e.discard = true;
+      if (e.discard) ndiscarded++; else nwritten++;
+    }
+    dsched::describe(" discard-heavy(all entries but every 4th are discarded)");
+    dsched::label("discard_heavy");
+  }
   dsched::label(("page_" + std::to_string(ps)).c_str());
 
   size_t cap = 0;
